@@ -323,6 +323,9 @@ pub fn run(tier: &str, seed: u64, widen: bool) -> Report {
                         "not yet implemented".into()
                     } else if msg.contains("is not weak") {
                         "is not weak replaceable".into()
+                    } else if msg.contains("didn't work") {
+                        // `panic!("{} expr #{} didn't work", location, idx)`: the text starts with a location
+                        "comptime argument didn't work".into()
                     } else {
                         let mut k = String::new();
                         for c in msg.chars().take(40) {
